@@ -91,18 +91,39 @@ impl<'text, Sc> Lexer<'text, Sc>
     #[must_use]
     pub fn with_column_metrics(mut self, metrics: ColumnMetrics) -> Self {
         *self.column_metrics_mut() = metrics;
+        self.remeasure_positions();
         self
+    }
+
+    /// Recomputes the line and column of every position held by the lexer from
+    /// its byte offset, using the current column metrics. Positions reached by
+    /// an eager scan past filtered tokens before the column metrics were
+    /// changed were measured with the previous metrics.
+    fn remeasure_positions(&mut self) {
+        let metrics = self.column_metrics();
+        let text = self.source_text.as_str();
+        let measure = |pos: Pos|
+            metrics.end_position(&text[..pos.byte], Pos::ZERO);
+        self.parse_start = measure(self.parse_start);
+        self.token_start = measure(self.token_start);
+        self.cursor = measure(self.cursor);
+        if let Some(buf) = self.buffer.as_mut() {
+            buf.peek_start = measure(buf.peek_start);
+            buf.peek_cursor = measure(buf.peek_cursor);
+        }
     }
 
     #[must_use]
     pub fn with_line_ending(mut self, line_ending: LineEnding) -> Self {
         self.column_metrics_mut().line_ending = line_ending;
+        self.remeasure_positions();
         self
     }
 
     #[must_use]
     pub fn with_tab_width(mut self, tab_width: u8) -> Self {
         self.column_metrics_mut().tab_width = tab_width;
+        self.remeasure_positions();
         self
     }
 
